@@ -145,7 +145,7 @@ def case_process(rec, n, ncpu, allow_timeout):
 
 def case_serial(rec, n):
     vals = [SymC.var(f"r{i}") for i in range(n)]
-    factors = [1.0, 0.5, 0.25, 2.0][:n]
+    factors = [1.0, 0.5, 0.25, 2.0, 0.125][:n]
 
     def body(rec):
         rec.witness = lambda env: dict(test="serial", n=n)
